@@ -406,6 +406,30 @@ def _apply_copy_post(S, o):
     return [('copy:not-frozen-branch', z3.Not(fz))] + post_copy(S, o)
 
 
+def _apply_frozen_view(S):
+    fl = S.eng.entry_heap[S.eng.self_oid]
+    return AbsView(smt.CP(APPLYDS(fl['apply_function'].t, fl['input_dataset'].t), I(0)))
+
+
+def _apply_iter(with_key):
+    """one epoch of a lazy apply = the stream of ONE frozen copy of apply_function(input): exactly its
+    examples in its order, its exception at its position"""
+    on_yield, post0 = iter_clauses(_apply_frozen_view, with_key)
+
+    def post(S, o):
+        copies = dict(S.st.ghost.get('copies', ()))
+        return post0(S, o) + [('C13:one-epoch-iterates-one-frozen-copy-of-the-function-result',
+                               z3.And(z3.BoolVal(len(copies) == 1 and 0 in copies), copies.get(0, smt.F)))]
+
+    def inv(S):
+        return S.out_n == S.k
+    v = _apply_frozen_view
+    return Variant('items' if with_key else 'values', params={'with_key': 'true' if with_key else 'false'}, generator=True,
+                   on_yield=on_yield, post=post, loops={'0': inv},
+                   requires=(lambda S: smt.ITEMS(_apply_frozen_view(S).d)) if with_key else None,
+                   hooks=_apply_hooks(), props=('C13', 'C01'), inline=('copy',))
+
+
 class ApplyDatasetC(ClassContract):
     cls = 'ApplyDataset'
 
@@ -416,8 +440,33 @@ class ApplyDatasetC(ClassContract):
         return None
     methods = {
         'copy': [Variant('freeze=any', params={'freeze': 'bool'}, post=_apply_copy_post, hooks=_apply_hooks(), props=('C13',))],
+        '__iter__': [_apply_iter(False), _apply_iter(True)],
         'ordered': [Variant('flag', post=post_bool_property(lambda S: smt.F), props=('C13',), inline=('ordered',))],
     }
 
+
+# ---- Dataset.apply / diskcache / dynamic-bucket factories
+def _apply_factory_post(kind):
+    def post(S, o):
+        env = S.eng.entry_env
+        if kind == 'none':
+            return [('apply:None-returns-self-unchanged', z3.BoolVal(o.kind == 'return') if o.kind != 'return' else is_self(S, o.value))]
+        if kind == 'lazy':
+            v = o.value if o.kind == 'return' else None
+            ok = isinstance(v, StageV) and v.cls == 'ApplyDataset' and len(v.args) == 2 and v.args[0] is env['apply_fn']
+            return [('C13:lazy-apply-builds-ApplyDataset(apply_fn,self)', z3.And(z3.BoolVal(bool(ok)), is_self(S, v.args[1]) if ok else smt.F)),
+                    ('C08:lazy-apply-does-not-call-the-function', z3.BoolVal(not S.st.ghost.get('log')))]
+        # eager: the function's own result on self
+        v = o.value if o.kind == 'return' else None
+        return [('apply:eager-returns-apply_fn(self)',
+                 z3.BoolVal(isinstance(v, DSRefV)) if not isinstance(v, DSRefV) else v.t == APPLYDS(env['apply_fn'].t, selfd(S)))]
+    return post
+
+
+ShuffleFactoryC.methods['apply'] = [
+    Variant('None', params={'apply_fn': 'none', 'lazy': 'bool'}, post=_apply_factory_post('none'), props=('C13',)),
+    Variant('lazy', params={'apply_fn': 'fn', 'lazy': 'true'}, post=_apply_factory_post('lazy'), props=('C13', 'C08')),
+    Variant('eager', params={'apply_fn': 'fn', 'lazy': 'false'}, post=_apply_factory_post('eager'), hooks=_apply_hooks(), props=('C13',)),
+]
 
 CONTRACTS = [ReShuffleDatasetC(), LocalShuffleDatasetC(), ShuffleFactoryC(), ApplyDatasetC()]
